@@ -253,6 +253,35 @@ pub fn enumerate_singles(b: &Base, seed: u64, thorough: bool) -> Vec<Fault> {
         out.push(sp("section_tag", *o, o + name.len() + 1, &[]));
     }
 
+    // --- whole-header rewrites: Windows line endings, a duplicated section, garbage after the data
+    {
+        let hdr = &bytes[..m.data_start];
+        let mut crlf = Vec::with_capacity(hdr.len() + 64);
+        for b in hdr {
+            if *b == b'\n' {
+                crlf.push(b'\r');
+            }
+            crlf.push(*b);
+        }
+        out.push(sp("crlf_header", 0, m.data_start, &crlf));
+        for l in m.lines.iter().step_by(3) {
+            out.push(sp("crlf_line", l.end.saturating_sub(1), l.end.saturating_sub(1), b"\r"));
+        }
+        for w in m.section_starts.windows(2) {
+            let (a, b) = (w[0].1, w[1].1);
+            let mut dup = bytes[a..b].to_vec();
+            dup.extend_from_slice(&bytes[a..b]);
+            out.push(sp("dup_section", a, b, &dup));
+            // section emptied (tag kept)
+            out.push(sp("empty_section", a + w[0].0.len() + 1, b, &[]));
+        }
+        out.push(sp("trailing_garbage", len, len, b"\n[EXTRA]\nKEY:1\n"));
+        out.push(sp("trailing_garbage", len, len, &[0u8; 64]));
+        out.push(sp("leading_garbage", 0, 0, b"\xef\xbb\xbf"));
+        out.push(sp("leading_garbage", 0, 0, b"\n\n\n"));
+        out.push(sp("leading_garbage", 0, 0, b"garbage\n"));
+    }
+
     // --- non UTF-8 bytes in each header line value and at section edges
     for l in &m.lines {
         for b in [0x80u8, 0xff, 0xc3] {
